@@ -223,6 +223,39 @@ def ensure_harness(name, kind="rcfork", extra_flags=(), source=None):
     return out
 
 
+TOOLS = {
+    "hwloc-calc": ["utils/hwloc/hwloc-calc.c"],
+    "hwloc-distrib": ["utils/hwloc/hwloc-distrib.c"],
+    "hwloc-diff": ["utils/hwloc/hwloc-diff.c"],
+    "hwloc-patch": ["utils/hwloc/hwloc-patch.c"],
+    "hwloc-info": ["utils/hwloc/hwloc-info.c"],
+    "lstopo-no-graphics": ["utils/lstopo/" + f for f in ("lstopo.c", "lstopo-draw.c", "lstopo-tikz.c", "lstopo-fig.c", "lstopo-svg.c", "lstopo-ascii.c", "lstopo-text.c", "lstopo-xml.c", "lstopo-shmem.c")] + ["utils/hwloc/common-ps.c"],
+}
+
+
+def ensure_tool(name):
+    """a command-line tool of /repo/utils compiled with the same sanitizers against the san library (C20)"""
+    out = os.path.join(keydir(), "tools", name)
+    if os.path.exists(out):
+        return out
+    lib = ensure_lib("san")
+    with Lock(".lock-tool-" + name):
+        if os.path.exists(out):
+            return out
+        os.makedirs(os.path.dirname(out), exist_ok=True)
+        inc, _ = include_flags()
+        t0 = time.time()
+        cmd = ["clang", "-g", "-O1", "-fno-omit-frame-pointer", "-DHAVE_CONFIG_H", "-w", "-I%s/utils/hwloc" % REPO, "-I%s/utils/lstopo" % REPO] + inc + SAN_COMMON.split() + \
+              [os.path.join(REPO, f) for f in TOOLS[name]] + [lib] + LINK_LIBS.split() + ["-lncursesw", "-o", out + ".tmp"]
+        rc, o = run(cmd)
+        if rc:
+            log("BUILD FAILED tool %s:\n%s" % (name, o[-4000:]))
+            raise SystemExit(3)
+        os.rename(out + ".tmp", out)
+        log("[build] tool %s in %.1fs" % (name, time.time() - t0))
+    return out
+
+
 # ---------------------------------------------------------------------------------------------------------
 def load_known():
     p = os.path.join(VERIF, "known_findings.json")
